@@ -23,6 +23,9 @@ import (
 	"verifharness/internal/rep"
 )
 
+// routerCtxKey marks the context the harness gives to CallWithContext: the transport must see it.
+type routerCtxKey struct{}
+
 type rtCall struct {
 	k      int
 	form   string
@@ -37,6 +40,7 @@ type fakeRT struct {
 	mu      sync.Mutex
 	up      map[string]bool
 	log     []string // addresses of user calls in order
+	forms   []string // the transport method each of them arrived through (parallel to log)
 	pings   map[string]int
 	closed  int
 	removed map[string]time.Time     // when an address was removed by Update (for C16)
@@ -58,9 +62,14 @@ func (f *fakeRT) result(addr string) error {
 	return nil
 }
 
-func (f *fakeRT) note(addr string) {
+func (f *fakeRT) note(addr string, form ...string) {
 	f.mu.Lock()
 	f.log = append(f.log, addr)
+	if len(form) > 0 {
+		f.forms = append(f.forms, form[0])
+	} else {
+		f.forms = append(f.forms, "?")
+	}
 	ch := f.hold[addr]
 	f.mu.Unlock()
 	if ch != nil {
@@ -69,7 +78,7 @@ func (f *fakeRT) note(addr string) {
 }
 
 func (f *fakeRT) RoundTrip(addr string, call *rpc.Call) *rpc.Call {
-	f.note(addr)
+	f.note(addr, "rt")
 	if call.Done == nil {
 		call.Done = make(chan *rpc.Call, 10)
 	}
@@ -82,21 +91,31 @@ func (f *fakeRT) RoundTrip(addr string, call *rpc.Call) *rpc.Call {
 }
 func (f *fakeRT) Go(addr, m string, a, r interface{}, done chan *rpc.Call) *rpc.Call {
 	c := &rpc.Call{ServiceMethod: m, Args: a, Reply: r, Done: done}
-	return f.RoundTrip(addr, c)
+	c = f.RoundTrip(addr, c)
+	f.mu.Lock()
+	if n := len(f.forms); n > 0 {
+		f.forms[n-1] = "go"
+	}
+	f.mu.Unlock()
+	return c
 }
 func (f *fakeRT) Call(addr, m string, a, r interface{}) error {
-	f.note(addr)
+	f.note(addr, "call")
 	if p, ok := a.(*string); ok {
 		*p = addr // tell the caller where it was sent
 	}
 	return f.result(addr)
 }
 func (f *fakeRT) CallWithContext(ctx context.Context, addr, m string, a, r interface{}) error {
-	f.note(addr)
+	if ctx != nil && ctx.Value(routerCtxKey{}) != nil {
+		f.note(addr, "ctx")
+	} else {
+		f.note(addr, "ctx-foreign") // a context, but not the caller's own
+	}
 	return f.result(addr)
 }
 func (f *fakeRT) NewStream(addr, key string) (rpc.Stream, error) {
-	f.note(addr)
+	f.note(addr, "stream")
 	return nil, f.result(addr)
 }
 func (f *fakeRT) Ping(addr string) error {
@@ -189,7 +208,7 @@ func (e *routerEnv) start(k int, form string) {
 		case "call":
 			err = e.c.Call("S.M", &a, &b)
 		case "ctx":
-			err = e.c.CallWithContext(context.Background(), "S.M", &a, &b)
+			err = e.c.CallWithContext(context.WithValue(context.Background(), routerCtxKey{}, true), "S.M", &a, &b)
 		case "go":
 			c := e.c.Go("S.M", &a, &b, make(chan *rpc.Call, 1))
 			<-c.Done
@@ -283,6 +302,7 @@ type routerResult struct {
 	timing     bool
 	timingWhy  string
 	stalls     []string // C18: calls (or Close) that hung although a live target existed
+	rtForms    []string // the transport method behind each entry of the sent log
 	actions    []string
 	obs        []string
 	env        *routerEnv
@@ -369,6 +389,7 @@ func (e *routerEnv) storm(gens int) ([]string, int) {
 	wg.Wait()
 	e.rt.mu.Lock()
 	e.rt.log = nil // the storm's own calls are not part of the observation
+	e.rt.forms = nil
 	e.rt.jitter = false
 	e.rt.mu.Unlock()
 	return bad, int(atomic.LoadInt64(&calls))
@@ -555,6 +576,9 @@ func runRouterScenario(sc routerScenario) *routerResult {
 		res.actions = append(res.actions, rec)
 		res.obs = append(res.obs, e.observe())
 	}
+	e.rt.mu.Lock()
+	res.rtForms = append([]string(nil), e.rt.forms...)
+	e.rt.mu.Unlock()
 	return res
 }
 
@@ -720,6 +744,17 @@ func checkRouter(sc routerScenario, r *routerResult) []connVerdict {
 						add("C18", "close-fails-parked-callers", "C18/parked-caller-not-failed-by-close", fmt.Sprintf("call %s (%s) was parked waiting for a live target when Close ran and ended with %q", k, formOf[k], nowCalls[k]))
 						break
 					}
+				}
+			}
+		}
+		// C19: what the caller of Client.CallWithContext passed is what the transport gets: the same
+		// method, the caller's own context
+		// (only when the printed log and the recorded forms line up: an empty address prints as nothing)
+		if f[0] == "ctxs" && len(r.rtForms) == len(parseList(r.obs[len(r.obs)-1], "sent")) && !contains(parseList(r.obs[len(r.obs)-1], "sent"), "") {
+			for j := prevSent; j < len(sent); j++ {
+				if r.rtForms[j] != "ctx" {
+					add("C19", "client-passes-the-context", "C19/context-dropped-by-the-client", fmt.Sprintf("a CallWithContext of the batch at action %d (sent to %q) reached the transport as %q: the caller's context never got there", i, sent[j], r.rtForms[j]))
+					break
 				}
 			}
 		}
